@@ -28,8 +28,25 @@ def main():
     meta = json.load(open(os.path.join(seed, "meta.json")))
     prop = meta["property"]
     scratch = "/tmp/se-" + name
-    shutil.rmtree(scratch, ignore_errors=True)
-    shutil.copytree("/repo", scratch, ignore=shutil.ignore_patterns(".git", "SEED"))
+    base = meta.get("base_commit") or ("cda5f78" if name[-1] in "ab" else "8205bff")
+    meta["base_commit"] = base
+
+    def fresh(commit=None):
+        shutil.rmtree(scratch, ignore_errors=True)
+        if commit is None:
+            shutil.copytree("/repo", scratch, ignore=shutil.ignore_patterns(".git", "SEED"))
+        else:
+            os.makedirs(scratch)
+            sh("git -C /repo archive %s | tar -x -C %s" % (commit, scratch))
+
+    # prefer the current tree; a patch written against an older commit that no longer
+    # applies is evaluated on the commit it was written against
+    fresh()
+    rc0, _ = sh("git apply --check --whitespace=nowarn %s" % os.path.join(seed, "patch.diff"), cwd=scratch)
+    meta["evaluated_on"] = "current /repo"
+    if rc0 != 0:
+        fresh(base)
+        meta["evaluated_on"] = "base commit %s (patch no longer applies to the current tree)" % base
     log = {}
     demo_go = os.path.join(seed, "demo_test.go")
     demo_sh = os.path.join(seed, "demo.sh")
